@@ -2082,7 +2082,9 @@ def mnemo_from_att(prefix, name, args, asm_format):
     elif name == 'fwait':
         # both mnenomics are valid
         return prefix, 'wait'
-    elif name.startswith('j'): # Conditional jumps
+    elif name.startswith('j') or name.startswith('loop'):
+        # Conditional jumps, and loop / loope / loopne: the operand is the
+        # destination, written without '$'
         for a in args:
             if a[x86_afs.ad]:
                 a[x86_afs.ad] = False
@@ -2476,7 +2478,8 @@ class x86_mn(x86_mn_base):
             if not self.m.name in att_same_order:
                 args.reverse()
             mnemo[-1] = mnemo_to_att(mnemo[-1], self.arg, asm_format)
-            if mnemo[-1] == 'call' or mnemo[-1].startswith('j'):
+            if mnemo[-1] == 'call' or mnemo[-1].startswith('j') \
+                    or mnemo[-1].startswith('loop'):
                 if   args[0][0] == '$':
                     args[0] = args[0][1:]
                 else:
